@@ -175,10 +175,12 @@ structure TempOut where
 
 /-- write_to_tempfile(content, path, suffix, prefix) (lines 101-109).  `content` is the byte
     string the content object exposes through the buffer protocol: the object is handed to
-    `os.write` untouched, whatever its type.  `pathTruthy`: `if path:`; `ensure`, `mkstemp`,
-    `write`: what ensure_tree(path), tempfile.mkstemp(...) and os.write(fd, content) do. -/
+    `os.write` untouched, whatever its type.  `pathTruthy`: `if path:`; `ensure`, `mkstemp`:
+    what ensure_tree(path) and tempfile.mkstemp(...) do; `write`: what the single
+    `os.write(fd, content)` does - an exception, or the number of bytes it transferred
+    (write(2) may transfer fewer than asked; the code does not look at the count). -/
 def writeToTempfile (content : Bytes) (pathTruthy : Bool)
-    (ensure mkstemp write : Except Exc Unit) : TempOut :=
+    (ensure mkstemp : Except Exc Unit) (write : Except Exc Nat) : TempOut :=
   match (if pathTruthy then ensure else .ok ()) with               -- lines 101-102
   | .error e => ⟨.error e, pathTruthy, none, false⟩
   | .ok () =>
@@ -187,7 +189,7 @@ def writeToTempfile (content : Bytes) (pathTruthy : Bool)
     | .ok () =>
       match write with                                              -- lines 105-108
       | .error e => ⟨.error e, pathTruthy, some [], true⟩           -- finally: os.close(fd)
-      | .ok () => ⟨.ok (), pathTruthy, some content, true⟩          -- line 109
+      | .ok n => ⟨.ok (), pathTruthy, some (content.take n), true⟩  -- line 109; count ignored
 
 /-! ### a one-path file system, for the "already done" clauses (assumed OS behaviour,
     exercised against the real file system by the correspondence) -/
